@@ -1,6 +1,7 @@
 package main
 
 import (
+	"strings"
 	"context"
 	"errors"
 	"fmt"
@@ -20,6 +21,7 @@ func init() { register("C19", c19{}) }
 
 // smClient is a StreamClient whose Resume fails a given number of times with a transient error.
 type smClient struct {
+	plain  bool // the failures are plain errors (a failed post-resume hook), not ConnErrors
 	fails  int
 	starts []time.Time
 	ends   []time.Time
@@ -30,6 +32,9 @@ func (f *smClient) Resume() error {
 	f.starts = append(f.starts, time.Now())
 	defer func() { f.ends = append(f.ends, time.Now()) }()
 	if len(f.starts) <= f.fails {
+		if f.plain {
+			return errors.New("harness: the post-resume hook failed")
+		}
 		return xmpp.NewConnError(errors.New("harness: transient failure"), false)
 	}
 	return nil
@@ -125,7 +130,7 @@ func execSupervisor(c Case) []string {
 	obs := make([]string, 0, len(c.Ops))
 	di := 0
 	for oi, k := range outages {
-		fc := &smClient{fails: k}
+		fc := &smClient{fails: k, plain: strings.Contains(c.ID, "plain")}
 		sm := xmpp.NewStreamManager(fc, nil)
 		if oi > 0 {
 			sm = smShared
@@ -276,6 +281,16 @@ func (c19) Generate(rng *rand.Rand, tier string, st *Stats) []Case {
 		}
 		mk(fmt.Sprintf("sm-%d-%d", i, k), 0, 0, 0, false, ops)
 		st.Add("supervisor_waits", k)
+	}
+	// failures that are not connection errors (the session came up, the application's post-resume hook failed): one
+	// wait per failed attempt, like any other transient failure
+	for i, k := range []int{2, 5} {
+		var ops [][]string
+		for j := 0; j < k; j++ {
+			ops = append(ops, []string{"smwait"})
+		}
+		mk(fmt.Sprintf("sm-plain-%d-%d", i, k), 0, 0, 0, false, ops)
+		st.Add("supervisor_waits_plain_error", k)
 	}
 	// two outages on one StreamManager: the back-off of the second starts again at the base
 	{
